@@ -1,10 +1,10 @@
-(* C01 extension 1: the refused operation, exactly.
+(* C01 extension 1: refused operations.
 
-   `refused_noop_partial` (DatastoreProofs2.v) excludes the ingest of a dataset the datastore already holds.
-   Here the excluded case is characterised completely: a refused operation either returns the identical state,
-   or it is the refused re-ingest and the ONLY change is that the artifact at the path the ingest would have
-   written has disappeared (registry, tags, records, in-memory store and `orig` untouched); what that does to
-   `get` of every dataset is stated too.  All for ANY codec, size and path function, every datastore kind. *)
+   Since commit 2da36a1 the ingest of a dataset the datastore already holds is refused before anything is written,
+   so EVERY refused operation returns the identical state (refused_noop_p, DatastoreProofs2.v).  Here: the
+   consequences (frame, erasure from histories) and the exact relation between the repaired `step` and the variant
+   `step_unfixed` that keeps the destructive behaviour from before the fix: they differ only on the re-ingest, and
+   there only by the loss of the artifact at the path the ingest was going to write. *)
 From Coq Require Import String Ascii List Bool ZArith NArith Lia.
 From V Require Import Model.Template Model.Datastore Proofs.DatastoreProofs Proofs.DatastoreProofs2.
 Import ListNotations.
@@ -39,27 +39,26 @@ Section FactsX1.
   Definition uses_path (s : state) (id : N) (p : string) : bool :=
     match aget N.eqb (recs s) id with Some r => String.eqb (r_path r) p | None => false end.
 
-  (* EXACT effect of a refused operation *)
-  Lemma refused_exact_p : forall c s x s' e,
-    step c s x = (s', Refused e) ->
-    s' = s
+  Notation step_unfixed := (step_unfixed obj bytes enc dec size path_of ext_of).
+
+  (* the variant without the fix, exactly: identical to `step` except for the ingest of a dataset already held by a
+     file / chained datastore, where the artifact at the target path is lost *)
+  Lemma unfixed_exact_p : forall c s x,
+    step_unfixed c s x = step c s x
     \/ exists mv id i b p,
          x = Ingest obj bytes mv id i b /\ has_rec s id = true /\ c_kind c <> KMem
-         /\ file_path i (c_fmt c) = FOk p /\ e = Conflict /\ s' = drop_artifact s p.
+         /\ file_path i (c_fmt c) = FOk p /\ step c s x = (s, Refused Conflict)
+         /\ step_unfixed c s x = (drop_artifact s p, Refused Conflict).
   Proof.
-    intros c s x s' e H.
-    destruct x as [k j o|mv k j b|src k|tag k|tag k|purge ids];
-      try (left; eapply (refused_noop_partial_p obj bytes enc dec size path_of ext_of); [exact H|reflexivity]).
-    destruct (aget N.eqb (recs s) k) as [r0|] eqn:Er.
-    2:{ left. eapply (refused_noop_partial_p obj bytes enc dec size path_of ext_of); [exact H|].
-        cbn [Datastore.reingest]. rewrite Er. reflexivity. }
-    cbn [Datastore.step] in H. rewrite Er in H.
-    destruct (import_reg (reg s) k j) as [reg'|]; [|inversion H; left; reflexivity].
-    destruct (c_kind c) eqn:Ek; [|inversion H; left; reflexivity|];
-      (destruct (file_path j (c_fmt c)) as [p| |] eqn:Ep; inversion H; subst;
-       [right; exists mv, k, j, b, p; unfold Datastore.has_rec; rewrite Er;
-        repeat split; try reflexivity; try discriminate; exact Ep
-       |left; reflexivity|left; reflexivity]).
+    intros c s x.
+    destruct x as [k j o|mv k j b|src k|tag k|tag k|purge ids]; try (left; reflexivity).
+    cbn [Datastore.step_unfixed Datastore.step].
+    destruct (import_reg (reg s) k j) as [reg'|]; [|left; reflexivity].
+    destruct (c_kind c) eqn:Ek; [|left; reflexivity|];
+      (destruct (aget N.eqb (recs s) k) as [r0|] eqn:Er; [|left; reflexivity];
+       destruct (file_path j (c_fmt c)) as [p| |] eqn:Ep; [|left; reflexivity|left; reflexivity];
+       right; exists mv, k, j, b, p; unfold Datastore.has_rec; rewrite Er;
+       split; [reflexivity|split; [reflexivity|split; [discriminate|split; [first [exact Ep|reflexivity]|split; reflexivity]]]]).
   Qed.
 
   (* what the lost artifact means for every dataset of the repository *)
@@ -74,77 +73,22 @@ Section FactsX1.
       intro Hp. subst p. rewrite String.eqb_refl in E. discriminate.
   Qed.
 
-  Lemma drop_artifact_get : forall c s p id,
-    get c (drop_artifact s p) id =
-      match c_kind c with
-      | KMem => get c s id
-      | KFile => if uses_path s id p then Fail NotFound else get c s id
-      | KChained => match get_mem s id with
-                    | Got o => Got o
-                    | Fail _ => if uses_path s id p then Fail NotFound else get c s id
-                    end
-      end.
-  Proof.
-    intros c s p id. unfold Datastore.get. destruct (c_kind c).
-    - apply drop_artifact_get_file.
-    - reflexivity.
-    - change (Datastore.get_mem obj bytes (drop_artifact s p) id) with (get_mem s id).
-      destruct (get_mem s id) eqn:Em; [reflexivity|]. rewrite drop_artifact_get_file.
-      destruct (uses_path s id p); reflexivity.
-  Qed.
-
-  (* the refused operation, lifted to full strength: registry identity, tag membership, datastore records,
-     in-memory store and the specification field never change; `held` never changes; the artifacts change
-     only as stated; a dataset whose record does not point at the lost path reads back as before *)
-  Lemma refused_effect_p : forall c s x s' e,
-    step c s x = (s', Refused e) ->
-    reg s' = reg s /\ tags s' = tags s /\ recs s' = recs s /\ mem s' = mem s /\ orig s' = orig s
-    /\ (forall id, held c s' id = held c s id)
-    /\ (reingest s x = false -> fs s' = fs s)
-    /\ (forall id, get c s' id <> get c s id ->
-          exists mv k i b p, x = Ingest obj bytes mv k i b /\ has_rec s k = true
-                             /\ file_path i (c_fmt c) = FOk p /\ uses_path s id p = true
-                             /\ get_file s' id = Fail NotFound).
-  Proof.
-    intros c s x s' e H.
-    destruct (refused_exact_p c s x s' e H) as [->|[mv [k [i [b [p [-> [Hr [Hk [Hp [-> ->]]]]]]]]]]].
-    - repeat split; try reflexivity. intros id Hne. exfalso. apply Hne. reflexivity.
-    - repeat split; try reflexivity.
-      + intro Hre. cbn [Datastore.reingest] in Hre. unfold Datastore.has_rec in Hr.
-        destruct (aget N.eqb (recs s) k); discriminate.
-      + intros id Hne. exists mv, k, i, b, p. repeat split; try assumption.
-        * rewrite drop_artifact_get in Hne. unfold Datastore.get in Hne.
-          destruct (c_kind c); [| exfalso; apply Hne; reflexivity |].
-          -- destruct (uses_path s id p); [reflexivity|exfalso; apply Hne; reflexivity].
-          -- destruct (get_mem s id); [exfalso; apply Hne; reflexivity|].
-             destruct (uses_path s id p); [reflexivity|exfalso; apply Hne; reflexivity].
-        * rewrite drop_artifact_get_file.
-          rewrite drop_artifact_get in Hne. unfold Datastore.get in Hne.
-          destruct (uses_path s id p); [reflexivity|].
-          exfalso. apply Hne. destruct (c_kind c); try reflexivity.
-          destruct (get_mem s id); reflexivity.
-  Qed.
-
-  (* a refused operation aimed at dataset k never changes what ANOTHER dataset reads back as, provided no other
-     record shares the path (collision_free) -- this includes the refused re-ingest *)
+  (* a refused operation never changes what ANY dataset reads back as, whether it is held, or the specification field *)
   Lemma refused_frame_p : forall c s x s' e id,
     step c s x = (s', Refused e) ->
-    collision_free obj bytes path_of ext_of c s x = true -> touches obj bytes x id = false ->
-    get c s' id = get c s id.
+    get c s' id = get c s id /\ held c s' id = held c s id /\ aget N.eqb (orig s') id = aget N.eqb (orig s) id.
   Proof.
-    intros c s x s' e id H Hcf Ht.
-    pose proof (frame_put_delete_p obj bytes enc dec size path_of ext_of c s x id Hcf Ht) as [Hg _].
-    rewrite H in Hg. exact Hg.
+    intros c s x s' e id H. rewrite (refused_noop_p obj bytes enc dec size path_of ext_of c s x s' e H).
+    repeat split; reflexivity.
   Qed.
 
-  (* histories: refused operations that are not re-ingests can be erased from any history *)
+  (* histories: EVERY refused operation can be erased from any history *)
   Fixpoint erase_refused (c : cfg) (s : state) (h : list op) : list op :=
     match h with
     | [] => []
     | x :: r =>
         match snd (step c s x) with
-        | Refused _ => if reingest s x then x :: erase_refused c (fst (step c s x)) r
-                       else erase_refused c (fst (step c s x)) r
+        | Refused _ => erase_refused c (fst (step c s x)) r
         | Done => x :: erase_refused c (fst (step c s x)) r
         end
     end.
@@ -155,9 +99,26 @@ Section FactsX1.
     cbn [erase_refused]. destruct (step c s x) as [s1 out] eqn:E. cbn [fst snd].
     destruct out as [|e].
     - unfold Datastore.run. cbn [fold_left]. rewrite E. cbn [fst]. apply IH.
-    - destruct (reingest s x) eqn:Hre.
-      + unfold Datastore.run. cbn [fold_left]. rewrite E. cbn [fst]. apply IH.
-      + pose proof (refused_noop_partial_p obj bytes enc dec size path_of ext_of c s x s1 e E Hre) as ->.
-        rewrite IH. unfold Datastore.run at 2. cbn [fold_left]. rewrite E. reflexivity.
+    - pose proof (refused_noop_p obj bytes enc dec size path_of ext_of c s x s1 e E) as ->.
+      rewrite IH. unfold Datastore.run at 2. cbn [fold_left]. rewrite E. reflexivity.
+  Qed.
+
+  (* the erased history contains no refused operation any more *)
+  Lemma erase_refused_all_done_p : forall c h s,
+    forallb (fun b => b) (snd (fold_left (fun (a : state * list bool) x =>
+        (fst (step c (fst a) x), (snd a ++ [match snd (step c (fst a) x) with Done => true | Refused _ => false end])%list))
+      (erase_refused c s h) (s, []))) = true.
+  Proof.
+    intros c h s.
+    assert (G : forall h s acc, forallb (fun b => b) acc = true ->
+              forallb (fun b => b) (snd (fold_left (fun (a : state * list bool) x =>
+                (fst (step c (fst a) x), (snd a ++ [match snd (step c (fst a) x) with Done => true | Refused _ => false end])%list))
+                (erase_refused c s h) (s, acc))) = true).
+    { clear h s. induction h as [|x h IH]; intros s acc Hacc; [exact Hacc|].
+      cbn [erase_refused]. destruct (step c s x) as [s1 out] eqn:E. cbn [fst snd].
+      destruct out as [|e].
+      - cbn [fold_left fst snd]. rewrite E. cbn [fst snd]. apply IH. rewrite forallb_app, Hacc. reflexivity.
+      - rewrite (refused_noop_p obj bytes enc dec size path_of ext_of c s x s1 e E). apply IH, Hacc. }
+    apply G. reflexivity.
   Qed.
 End FactsX1.
